@@ -5,8 +5,8 @@ COQ_TARGETS = ['Properties_C10.vo']
 HARNESS_MODS = ['ps']
 RULE = ('case = ps.run <window base> <medium image> <checksum address> <algorithm 0 trivial-16 / 1 CRC-16/ARC / 2 32-bit sum> <initial value> <data size> '
         '<aux buffer size, -1 = none> <read fault script> <write fault script> <ops>: a history of store / store_part(offset,n) / validate / fetch / '
-        'fetch_part / reset / out-of-band alteration on a logging medium whose window extends 4 octets beyond the region on both sides.  Observation after every '
-        'operation: access code, fetched octets, the whole medium image, "every access so far inside [checksum, checksum+size+data)", and for refused part accesses '
+        'fetch_part / reset / out-of-band alteration / store of an explicit image (pairs of different images with the SAME checksum under each algorithm) / re-placement of the instance and change of its auxiliary buffer in mid-life on a logging medium whose window extends 4 octets beyond the region on both sides.  Observation after every '
+        'operation: access code, fetched octets, the whole medium image, "every access of this operation inside the current [checksum, checksum+size+data)", and for refused part accesses '
         '"no medium access at all".  Grid: data sizes 1..N, placements {4, 7, 4096, 2^32-region-4}, three algorithms, buffer sizes -1, 0..N+1, every (offset, n) of part '
         'stores and fetches incl. arithmetic-overflow pairs (2^64-1, 2^63 ...), every single-octet alteration.  Non-trivial: at least one store.')
 TRUSTED_BASE = TB_COMMON + ['Model/Persist.v hand-written from src/persistent-storage.c; checksum algorithms are per-octet folds (trivial sum, CRC-16/ARC = C16 spec step, 32-bit sum) supplied to the C code by the harness']
@@ -105,6 +105,21 @@ def gen(rng, tier):
                 for bs in (-1, 0, 3):
                     ops = [(7, val(x), 0, 0), (2, 0, 0, 0), (3, 0, 0, 0), (7, val(y), 0, 0), (2, 0, 0, 0), (3, 0, 0, 0), (7, val(y), 0, 0), (3, 0, 0, 0), (7, val(x), 0, 0), (3, 0, 0, 0)]
                     yield case(rng, rng.choice([4, 7, 4096]), ckind, 0, dsize, bs, [], [], ops)
+    # the caller re-places the instance and changes its auxiliary buffer in mid-life (ops 8, 9): nothing of the old placement may linger
+    for _ in range(600 if big else 80):
+        dsize = rng.randrange(1, 12); ckind = rng.randrange(3); csize = 4 if ckind == 2 else 2
+        span = csize + dsize
+        img = [0xAA] * 4 + [rng.randrange(256) for _ in range(3 * span + 8)] + [0xAA] * 4
+        places = [4, 4 + span, 4 + span + 3, 4 + 2 * span + 8]
+        ops = []
+        for _s in range(rng.randrange(2, 6)):
+            ops += [(8, rng.choice(places), 0, 0)]
+            if rng.random() < 0.5:
+                ops += [(9, rng.choice([0, 1, 2, dsize, dsize + 3]), 0, 0)]
+            ops += rng.choice([[(0, rng.randrange(256), 0, 0), (2, 0, 0, 0), (3, 0, 0, 0)], [(2, 0, 0, 0), (3, 0, 0, 0)],
+                               [(1, rng.randrange(256), rng.randrange(dsize), 1), (2, 0, 0, 0)], [(5, rng.randrange(256), 0, 0), (2, 0, 0, 0), (3, 0, 0, 0)]])
+        # base: the window starts 4 octets below the first place
+        yield 'ps.run %d %s %d %d %d %d %d %s %s %s' % (0, hexs(img), places[0], ckind, rng.choice([0, 1, 0xffff]), dsize, rng.choice([-1, 0, 2]), lst([]), lst([]), flat(ops))
     # random histories
     for _ in range(2000 if big else 200):
         dsize = rng.randrange(1, 30); ckind = rng.randrange(3); csize = 4 if ckind == 2 else 2
